@@ -404,8 +404,25 @@ func Neg(a *Term) *Term {
 	return Sub(RealOfInt(0), a)
 }
 
+// acMulMode: real products of non-literal factors become applications of an uninterpreted,
+// syntactically AC-normalised function prodN (used for the chain-rule combinators, where only
+// congruence between products matters; keeps those VCs in EUF + linear arithmetic).
+var acMulMode bool
+
+func prodFactors(t *Term) []*Term {
+	if strings.HasPrefix(t.Op, "f:prod") {
+		return t.Args
+	}
+	return []*Term{t}
+}
+
 func Mul(a, b *Term) *Term {
 	a, b, s := numSort(a, b)
+	if acMulMode && s == SReal && !a.IsRealLit() && !b.IsRealLit() {
+		fs := append(append([]*Term{}, prodFactors(a)...), prodFactors(b)...)
+		sort.Slice(fs, func(i, j int) bool { return fs[i].id < fs[j].id })
+		return App(fmt.Sprintf("prod%d", len(fs)), SReal, fs...)
+	}
 	if s == SInt {
 		if a.IsIntLit() && b.IsIntLit() {
 			return BigIntLit(new(big.Int).Mul(a.IntVal(), b.IntVal()))
